@@ -523,7 +523,24 @@ fn roots(k: &K, s0: &Store) -> Vec<Node> {
     {
         let mut s = s0.clone();
         world::edit_bank(&mut s, &w.banks[1].key, |b| b.config.operational_state = BankOperationalState::KilledByBankruptcy);
-        v.push(Node { s, path: vec!["root:K2".into()] });
+        v.push(Node { s: s.clone(), path: vec!["root:K2".into()] });
+        // K4: ... and both banks' settings were frozen before that (the frozen configure path is a second
+        // implementation of the same rules)
+        for b in 0..2 {
+            world::edit_bank(&mut s, &w.banks[b].key, |bk| bk.flags |= marginfi_type_crate::constants::FREEZE_SETTINGS);
+        }
+        v.push(Node { s, path: vec!["root:K4".into()] });
+    }
+    // K3: both banks' settings are frozen by the admin
+    {
+        let mut s = s0.clone();
+        let mut ok = true;
+        for b in 0..2 {
+            ok &= process_tx(&mut s, &Tx::one(ix::configure_bank(w.group, w.roles.admin, w.banks[b].key, BankConfigOpt { freeze_settings: Some(true), ..opt_none() }), &[w.roles.admin])).ok();
+        }
+        if ok {
+            v.push(Node { s, path: vec!["root:K3".into()] });
+        }
     }
     v
 }
